@@ -98,8 +98,5 @@ func N[Int interface {
 	return Int(Uint64N(uint64(n)))
 }
 
-// Zipf is rand.Zipf.
-type Zipf = randv2.Zipf
-
 // NewZipf is rand.NewZipf.
 func NewZipf(r *Rand, s float64, v float64, imax uint64) *Zipf { return randv2.NewZipf(r, s, v, imax) }
